@@ -162,6 +162,9 @@ type Conn struct {
 
 	// WriteLatency is slept (virtually) inside every WriteTo.
 	WriteLatency time.Duration
+	// WriteLatencyOf, when non-nil, gives an additional latency for the n-th
+	// write (0-based): the packet is on the wire at write_end.
+	WriteLatencyOf func(n int, dst netip.Addr) time.Duration
 	// WriteErr, when non-nil, decides the error of the n-th write (0-based).
 	WriteErr func(n int, dst netip.Addr) error
 	// OnWrite, when non-nil, is called after write_begin is recorded.
@@ -301,6 +304,11 @@ func (c *Conn) WriteTo(m ndp.Message, _ *ipv6.ControlMessage, dst netip.Addr) er
 	if c.WriteLatency > 0 {
 		time.Sleep(c.WriteLatency)
 	}
+	if c.WriteLatencyOf != nil {
+		if d := c.WriteLatencyOf(n, dst); d > 0 {
+			time.Sleep(d)
+		}
+	}
 	var err error
 	if c.WriteErr != nil {
 		err = c.WriteErr(n, dst)
@@ -390,7 +398,17 @@ func (s *State) IPv6Forwarding(iface string) (bool, error) {
 		e.Err = err.Error()
 	}
 	s.Tr.Add(e)
-	return v, err
+	if err != nil {
+		return false, err // a failed read carries no value
+	}
+	return v, nil
+}
+
+// SetFwdErr installs (or with nil removes) the forwarding read fault.
+func (s *State) SetFwdErr(f func(n int, iface string) error) {
+	s.mu.Lock()
+	s.FwdErr = f
+	s.mu.Unlock()
 }
 
 func (s *State) IPv6Autoconf(iface string) (bool, error) {
